@@ -15,6 +15,8 @@ for f in sorted(os.listdir(src)):
         v = [l for l in txt if l.startswith('VIOLATION')]
         kinds = sorted({l.strip() for l in txt if l.strip().startswith('kind=')})[:8]
         logs[f[6:-4]] = {"exit": 1 if v else 0, "violation_lines": len(v), "violation_kinds": kinds, "last_line": txt[-1] if txt else ""}
+if not det:
+    det = sorted(c for c, r in logs.items() if r["exit"] == 1)
 meta.update({"property": prop, "confirmed_by_lead": "tools/try_seeded.sh: demo exits 0 on pristine HEAD and 1 with the patch (fresh numba cache per tree); agent ran the full suite with the patch (1203 passed)",
              "checks_run": logs, "detected_by": det})
 json.dump(meta, open(os.path.join(dst, 'meta.json'), 'w'), indent=1)
